@@ -212,6 +212,12 @@ Proof.
   destruct Hin as [->|Hin]; [left; reflexivity | right; apply IH; exact Hin].
 Qed.
 
+Lemma lset_same {L} (l : list (nat * L)) t v : lget l t = Some v -> lset l t v = l.
+Proof.
+  induction l as [|[k w] l IH]; cbn [lget lset]; [discriminate|].
+  destruct (Nat.eqb k t) eqn:Ek; [intros H; injection H as ->; reflexivity | intros H; rewrite IH by exact H; reflexivity].
+Qed.
+
 (* ------------------------------------------------------------------ preservation *)
 Lemma frames_same s s' : base s' = base s -> payloads s' = payloads s -> frames s' = frames s.
 Proof. intros Hb Hp. unfold frames. rewrite Hb, Hp. reflexivity. Qed.
@@ -359,9 +365,7 @@ Proof.
       { destruct (pc th); try discriminate. destruct (prog th); [auto | discriminate]. }
       constructor; [exact (ks_base _ HK) | exact (ks_pids _ HK) | | | ].
       * eapply threads_update; [reflexivity | eapply others_keep; eauto |].
-        exists th. split; [exact Hth|]. destruct HP. constructor; cbn [lcur lprog lpc lpayload s1 images base payloads borrowed] in *; auto.
-        -- discriminate.
-        -- discriminate.
+        exists th. split; [exact Hth|]. destruct HP. constructor; cbn [lcur lprog lpc lpayload s1 images base payloads borrowed] in *; auto; try discriminate.
       * intros a Ha. assert (Hfs : frames s1 = frames s) by (apply frames_same; reflexivity).
         unfold nframes. rewrite Hfs. unfold s1 in Ha. cbn [lacks] in Ha. apply in_app_iff in Ha.
         destruct Ha as [Ha|[<-|[]]]; [apply (ks_lacks_len _ HK); exact Ha | cbn [la_frames]; unfold nframes; lia].
@@ -382,7 +386,7 @@ Proof.
         destruct (ks_base _ HK) as [HSI _].
         apply forallb_forall. intros [p u] Hin.
         destruct (pt_payload0 eq_refl Hb p u Hin) as [img [Himg Hbit]].
-        destruct Hlink as [[_ Hnil]|[Hnz Hpay]]; [rewrite Hnil in Himg; destruct Himg|].
+        destruct Hlink as [[_ Hnil]|[Hnz Hpay]]; cbn [lpayload] in *; [rewrite Hnil in Himg; destruct Himg|].
         apply existsb_exists. exists (p, img). split; [|cbn [fst snd]; rewrite Z.eqb_refl, Hbit; reflexivity].
         unfold frames. apply in_flat_map. exists (myid th). split; [|rewrite Hpay; exact Himg].
         destruct (si_acks _ HSI Hs a Ha Hres) as [H0|[_ Hlog]]; [congruence|].
@@ -421,8 +425,7 @@ Proof.
         rewrite (flat_map_payload_ext _ _ _ Hpay_old). reflexivity. }
       destruct Hfr as [x Hfr].
       assert (Hlt : lthrs s1 = lset (lthrs s) t (LThr lp lc LCommit k0 pay)).
-      { cbn [s1 lthrs]. clear - El. revert El. generalize (lthrs s). intros l. induction l as [|[k v] l IH]; cbn [lget lset]; [discriminate|].
-        destruct (Nat.eqb k t) eqn:Ek; [intros H; injection H as ->; reflexivity | intros H; rewrite IH by exact H; reflexivity]. }
+      { cbn [s1 lthrs]. symmetry. apply lset_same. exact El. }
       constructor.
       * cbn [s1 base]. split; assumption.
       * cbn [s1 base sh payloads]. intros id Hid.
@@ -440,13 +443,13 @@ Proof.
               intros _. specialize (pt_link0 eq_refl).
               destruct HTS; split_p0; cbn [pc prog cur myid] in *;
                 try (destruct Hpushed as [[-> _]|[_ [_ [Hx _]]]]; [|discriminate Hx]);
-                try (destruct pt_link0 as [A B]; first [split; [exact A | exact B] | split; [intros _; exact A | intros _; exact B] | split; [exact A | intros _; exact B]]; fail).
+                try (destruct pt_link0 as [A B]; first [split; [exact A | exact B] | split; [intros Hne; exfalso; apply Hne; exact A | intros _; exact B] | split; [exact A | intros _; exact B]]; fail).
               ** (* begin *) destruct pt_link0 as [A _]. specialize (A ltac:(discriminate)). injection A as -> ->. repeat split; reflexivity.
               ** (* empty *) destruct pt_link0 as [A [B C]]. split; [exact A|]. left. split; [exact C|].
                  match goal with H : op_empty _ = true |- _ => rewrite H in B end.
                  destruct pay; [reflexivity | discriminate B].
               ** (* push *) destruct Hpushed as [[_ Hn]|[-> _]]; [cbn [next_id sh_push] in Hn; lia|].
-                 destruct pt_link0 as [A _]. split; [exact A|]. right. split; [pose proof (si_next _ HSI); lia|].
+                 destruct pt_link0 as [A _]. split; [exact A|]. right. cbn [myid lpayload]. split; [pose proof (si_next _ HSI); lia|].
                  apply payload_of_app_fresh. intros Hin. pose proof (ks_pids _ HK _ Hin). lia.
            ++ (* id *)
               destruct Hpushed as [[_ Hn]|[_ [Hn [_ [_ Hm]]]]]; rewrite Hn.
@@ -455,12 +458,12 @@ Proof.
            ++ (* acks *)
               intros a Ha Hthr. destruct Hacks as [Hsame|[r [Hnew [Hpc' [Hm' Hk']]]]].
               ** rewrite Hsame in Ha. specialize (pt_acks0 a Ha Hthr).
-                 destruct HTS; split_p0; cbn [pc kidx myid] in *; try (destruct pt_acks0 as [H|[_ [H _]]]; [left; exact H | discriminate H]; fail);
-                   try (destruct pt_acks0 as [H|[H _]]; left; lia).
+                 destruct HTS; split_p0; cbn [pc kidx myid] in *; try (destruct pt_acks0 as [Hq|[_ [Hq _]]]; [left; exact Hq | discriminate Hq]; fail);
+                   try (destruct pt_acks0 as [Hq|[Hq _]]; left; lia).
               ** rewrite Hnew in Ha. apply in_app_iff in Ha. destruct Ha as [Ha|[<-|[]]].
                  --- specialize (pt_acks0 a Ha Hthr). left. rewrite Hk'.
-                     destruct pt_acks0 as [H|[_ [H _]]]; [exact H|]. exfalso.
-                     destruct HTS; cbn [pc] in *; try discriminate H; try discriminate Hpc';
+                     destruct pt_acks0 as [Hq|[_ [Hq _]]]; [exact Hq|]. exfalso.
+                     destruct HTS; cbn [pc] in *; try discriminate Hq; try discriminate Hpc';
                        cbn [acks sh_push sh_set_fip sh_wait sh_ack sh_steal sh_drain sh_write sh_complete sh_err sh_notify_all] in Hnew;
                        apply (f_equal (@length ack)) in Hnew; rewrite app_length in Hnew; cbn [length] in Hnew; lia.
                  --- right. cbn [a_k a_id]. auto.
@@ -469,3 +472,47 @@ Proof.
       * cbn [s1 base sh borrowed lacks]. intros Hb Hs a Ha. rewrite Hfr.
         apply covered_app; [apply (ks_lacks_len _ HK); exact Ha | apply (ks_lacks _ HK); auto].
 Qed.
+
+(* ------------------------------------------------------------------ initial state, theorem *)
+Definition wf_progs (progs : list (list txn)) : Prop :=
+  forall p x q u, In p progs -> In x p -> In (q, u) x -> 0 <= u.
+
+Lemma lget_number_from_map2 {A B C} (f : A -> B) (g : A -> C) (l : list A) n t x :
+  lget (number_from n (map f l)) t = Some x ->
+  exists e, In e l /\ x = f e /\ lget (number_from n (map g l)) t = Some (g e).
+Proof.
+  revert n. induction l as [|a l IH]; intros n; cbn [map number_from lget]; [discriminate|].
+  destruct (Nat.eqb n t).
+  - intros H. injection H as <-. exists a. split; [left; reflexivity | auto].
+  - intros H. destruct (IH _ H) as [e [He [Hx Hg]]]. exists e. split; [right; exact He | auto].
+Qed.
+
+Lemma KS_init progs : wf_progs progs -> KS (init38 progs).
+Proof.
+  intros Hwf. constructor; cbn [init38 base payloads lthrs lacks borrowed].
+  - apply Inv_init.
+  - intros id [].
+  - intros t lt Hl.
+    destruct (lget_number_from_map2 (fun p => LThr p [] LIdle 0 []) (fun _ : list txn => init_thr []) progs 0 t lt Hl) as [p [Hp [-> Hg]]].
+    exists (init_thr []). split.
+    + cbn [init thrs]. rewrite map_map. exact Hg.
+    + constructor; cbn; auto; try discriminate.
+      * split; [intros q u [] | intros x Hx q u Hin; eapply Hwf; eauto].
+      * intros a [].
+  - intros a [].
+  - intros _ _ a [].
+Qed.
+
+Theorem KS_run fx progs sched : wf_progs progs -> KS (run (step38 fx) sched (init38 progs)).
+Proof. intros Hwf. apply invariant_rule; [apply KS_init; exact Hwf | intros t s s' HK; apply KS_step; exact HK]. Qed.
+
+(* every acknowledged transaction has each of its writes in a frame that was in the log when its
+   COMMIT returned - unless a page of some transaction had been taken out of the dirty tracker by
+   another handle's capture (class 2), or C37's defect struck (class 3) *)
+Lemma coverage_outside_known_classes_l :
+  forall fx progs sched, wf_progs progs ->
+    let s := run (step38 fx) sched (init38 progs) in
+    borrowed s = false -> stolen (sh (base s)) = false ->
+    forall a, In a (lacks s) -> covered (frames s) a = true.
+Proof. intros fx progs sched Hwf s Hb Hs. apply (ks_lacks _ (KS_run fx progs sched Hwf)); assumption. Qed.
+
